@@ -56,7 +56,7 @@ Init == /\ cfg \in {CfgSeq[k] : k \in {j \in 1..Len(CfgSeq) : j % NShards = Shar
 
 \* Emit: the docstring as a sequence of line records (as built when deviations are enabled)
 Emit == /\ pc = "start"
-        /\ lines' = DL!EmitLines(cfg, i, Enabled # {})
+        /\ lines' = DL!EmitLines(cfg, i, Enabled)
         /\ pc' = "emitted" /\ UNCHANGED <<cfg, i, out, fired, keep>>
 \* Parse: the interface read back
 Parse == /\ pc = "emitted"
